@@ -78,8 +78,10 @@ func (p *parser) parseSchemaDocument() *SchemaDocument {
 		}
 
 		var description descriptionWithComment
+		hasDescription := false
 		if p.peek().Kind == lexer.BlockString || p.peek().Kind == lexer.String {
 			description = p.parseDescription()
+			hasDescription = true
 		}
 
 		if p.peek().Kind != lexer.Name {
@@ -95,7 +97,8 @@ func (p *parser) parseSchemaDocument() *SchemaDocument {
 		case "directive":
 			doc.Directives = append(doc.Directives, p.parseDirectiveDefinition(description))
 		case "extend":
-			if description.text != "" {
+			// an extension has no description, not even an empty one
+			if hasDescription {
 				p.unexpectedToken(p.prev)
 			}
 			p.parseTypeSystemExtension(&doc)
